@@ -258,4 +258,10 @@ def TP.raw : TP → Res RawTP
   | .versionInfo legacy chosen avail =>
       .ok ⟨if legacy then 0xff73db else 0x11, u32 chosen ++ avail.flatMap u32⟩
 
+/-- `(*GREASETransportParameter).Value`: a non-empty `ValueOverride` is the value; otherwise
+`Length` bytes are drawn (`drawn` = what `rand.Read` serves) and frozen into `ValueOverride`.
+Returns (new ValueOverride, value). -/
+def greaseValue (override : Bytes) (length : Nat) (drawn : Bytes) : Bytes × Bytes :=
+  if override.isEmpty then (drawn.take length, drawn.take length) else (override, override)
+
 end Varint
